@@ -47,7 +47,7 @@ func vScenarioC17(rc *runCtx) {
 	o.simCap = 20 * time.Minute
 	x := newXferWorld(rc, o)
 	// connector outcome for the genuine client
-	outcome := []string{"ok", "refuse", "late", "dead", "no-listener"}[tp.Pick("c17.connector", 5, 1, 1, 1, 1)]
+	outcome := []string{"ok", "refuse", "late", "dead", "no-listener", "hang"}[tp.Pick("c17.connector", 5, 1, 1, 1, 1, 1)]
 	if outcome == "no-listener" {
 		o.noListen = true
 	}
@@ -60,6 +60,10 @@ func vScenarioC17(rc *runCtx) {
 		case "late":
 			verifsim.Sleep(time.Duration(1100+tp.Draw("c17.late", 2000)) * time.Millisecond)
 			return genuine(port)
+		case "hang":
+			// a connect that neither succeeds nor fails for minutes (packets dropped on the way)
+			verifsim.Sleep(10 * time.Minute)
+			return nil
 		case "dead":
 			c := genuine(port)
 			if c != nil {
@@ -189,6 +193,40 @@ func vScenarioC17(rc *runCtx) {
 			}
 		})
 	}
+	// in-band bytes (keys pressed, stray output) while the handshake is still travelling over the tunnel: with a
+	// relay in the path they pass the relay's own handshake machinery and must stay out of the tunnel
+	earlyInband := cfg.relays > 0 && tp.Bool("c17.earlyinband", 500)
+	if earlyInband {
+		// the moment both ends agree: the server, having read the ACT that came over the tunnel, writes its CFG
+		// into the tunnel. The relay has not seen that CFG yet and is still in its own handshake.
+		earlyN := 1 + tp.Draw("c17.earlyn", 3)
+		w.Go("inband-early", nil, func() {
+			for k := 0; k < 4000; k++ {
+				if len(x.tunnelConns) >= cfg.relays+1 {
+					last := x.tunnelConns[len(x.tunnelConns)-1]
+					done := false
+					prev := last.R.OnWrite
+					last.R.OnWrite = func(l *verifsim.Link, d []byte) {
+						if prev != nil {
+							prev(l, d)
+						}
+						if !done && bytes.Contains(d, []byte("#CFG:")) {
+							done = true
+							for i := 0; i < earlyN; i++ {
+								rc.fault("inband-during-handshake")
+								x.up[0].Inject([]byte(fmt.Sprintf("inband-keys-%d ", i)))
+							}
+						}
+					}
+					return
+				}
+				if x.server.Exited {
+					return
+				}
+				verifsim.Sleep(time.Millisecond)
+			}
+		})
+	}
 	// in-band injection once the tunnel carries traffic
 	injected := false
 	w.Go("inband", nil, func() {
@@ -251,6 +289,30 @@ func vScenarioC17(rc *runCtx) {
 		if a.kind != "silent" && a.kind != "right-second" && !a.conn.R.WriterClosed() && !a.conn.Wr.ReaderClosed() {
 			rc.violate("adoption", "C17:not-closed:"+a.kind, "attacker %d (%s at %s) presented a wrong greeting and its connection was left open", i, a.kind, a.target)
 			return
+		}
+	}
+	// no tunnel within the grace period: the transfer proceeds in-band then, not when the connector is done
+	if outcome == "late" || outcome == "hang" {
+		var trigAt, actAt time.Duration = -1, -1
+		dn, _, dev := x.down[0].Snapshot()
+		for _, e := range dev {
+			if trigAt < 0 && e.Off+e.N <= len(dn) && bytes.Contains(dn[e.Off:e.Off+e.N], []byte("::TRZSZ:TRANSFER:")) {
+				trigAt = e.T
+			}
+		}
+		up, _, uev := x.up[0].Snapshot()
+		for _, e := range uev {
+			if actAt < 0 && e.Off+e.N <= len(up) && bytes.Contains(up[e.Off:e.Off+e.N], []byte("#ACT:")) {
+				actAt = e.T
+			}
+		}
+		rc.res.Scenario["trigger_at"], rc.res.Scenario["act_at"] = trigAt.String(), actAt.String()
+		if trigAt >= 0 && actAt >= 0 && actAt-trigAt > 2500*time.Millisecond {
+			rc.violate("grace", "C17:grace-period-ignored:"+outcome, "the connector was still busy after the one-second grace period (%s); the client sent its ACT %v after the trigger instead of falling back in-band at once", outcome, actAt-trigAt)
+			return
+		}
+		if actAt >= 0 {
+			rc.w.Probe("in-band-after-grace")
 		}
 	}
 	// exactly one connection per listener carried protocol traffic from the listener side
